@@ -67,6 +67,9 @@ let () =
           if esc then rstep s o
           else (match o with
               | RBits w -> let (v, s') = read_plain s w in (VN v, s')
+              | RSe -> failwith "plain reader op"
+              | RBytes k -> (* used as ReadSigned(k) in plain mode *)
+                let (z, s') = read_signed_plain s (n_of_int (int_of_nat k)) in (VZ z, s')
               | RFlag -> let (v, s') = read_plain s (n_of_int 1) in
                 (VB ((not (rerr s')) && int_of_n v = 1), s')
               | _ -> failwith "plain reader op") in
